@@ -19,7 +19,7 @@
    after create_all the catalog is the graph (tables, all constraints incl. deferred ones, indexes - restricted
    to what was asked for plus what pre-existed), after drop_all it is what pre-existed minus what was asked for,
    sorted_tables lists referenced before referencing.  The chain is deterministic: a failing event prints
-   [rej, at, ev, why] (why = names of the false conjuncts) and validation continues with the next trace.   *)
+   [rej, at, ev, why, cat, call] (why = names of the false conjuncts) and validation continues with the next trace.   *)
 EXTENDS DdlGraphs, IOUtils
 Traces == ndJsonDeserialize(IOEnv.TRACE_FILE)      \* one trace per line
 NT == Len(Traces)
@@ -122,12 +122,12 @@ Consume == /\ tid <= NT /\ l <= Len(Traces[tid].ev)
               IN IF w = {}
                  THEN /\ cat' = NewCat(e) /\ call' = NewCall(e) /\ l' = l + 1
                       /\ UNCHANGED <<tid, m, g, nrej>> /\ TLCSet(1, <<tid, l + 1, nrej>>)
-                 ELSE /\ PrintT(ToJson([rej |-> Traces[tid].id, at |-> l, ev |-> e, why |-> w, cat |-> cat]))
+                 ELSE /\ PrintT(ToJson([rej |-> Traces[tid].id, at |-> l, ev |-> e, why |-> w, cat |-> cat, call |-> call.c]))
                       /\ Start(tid + 1, nrej + 1)
 NextTrace == /\ tid <= NT /\ l > Len(Traces[tid].ev)
              /\ IF call.c = "" THEN Start(tid + 1, nrej)
                 ELSE /\ PrintT(ToJson([rej |-> Traces[tid].id, at |-> l, ev |-> [e |-> "End"],
-                                       why |-> {"Trace.ends_outside_a_call"}, cat |-> cat]))
+                                       why |-> {"Trace.ends_outside_a_call"}, cat |-> cat, call |-> call.c]))
                      /\ Start(tid + 1, nrej + 1)
 TInit == /\ tid = 1 /\ l = 1 /\ cat = EmptyCat /\ call = NoCall /\ nrej = 0
          /\ g = IF NT >= 1 THEN GraphOfTrace(Traces[1]) ELSE EmptyGraph
